@@ -6,7 +6,10 @@ open Lean Proto JediModel.Helper
 def srcCfg : Cfg :=
   { dumpCatch := JediModel.Gen.C14.sendDumpCatch,
     loadCatch := JediModel.Gen.C14.sendLoadCatch,
-    envCatch := JediModel.Gen.C14.envCatch }
+    envCatch := JediModel.Gen.C14.envCatch,
+    closeStreams := JediModel.Gen.C14.cleanupCloseStreams.filterMap Stream.ofName?,
+    closePerStream := JediModel.Gen.C14.cleanupClosePerStream,
+    closeCatch := JediModel.Gen.C14.cleanupCloseCatch }
 
 def parseFault (phase cls : String) : Fault :=
   match phase with
@@ -37,7 +40,7 @@ def procJson (p : Proc) : Json :=
   jobj [("idx", jnat p.idx), ("crashed", jbool p.crashed), ("started", jbool p.started),
         ("alive", jbool p.alive), ("reaped", jbool p.reaped), ("cleanups", jnat p.cleanups),
         ("queue", jarr (p.queue.reverse.map jnat)), ("child", jarr (p.child.map jnat)),
-        ("nreq", jnat p.nreq)]
+        ("nreq", jnat p.nreq), ("fds", jnat p.fds.length)]
 
 def envJson (e : Env) : Json :=
   jobj [("procs", jarr (e.procs.reverse.map procJson)),
